@@ -6,7 +6,8 @@ from common import Check, NCPU
 
 def api_leg(chk, tier, seed):
     """end-to-end: bridge methods writing scripted chunk lists, called through the generated C API (diplomat_buffer_write_* and
-    diplomat_simple_write over exactly-sized heap buffers, incl. too small ones) and the C++ API (std::string returns), under ASan."""
+    diplomat_simple_write over exactly-sized heap buffers, incl. too small ones) and the C++ API (std::string returns), under ASan;
+    and from a Rust foreign-caller driver interpreted by Miri."""
     import api
     from common import pmap
     thorough = tier == "thorough"
@@ -19,7 +20,12 @@ def api_leg(chk, tier, seed):
         if lang == "c":
             return lang, api.run_c_program(seed + 12000, i, "c12c", profile=prof, ncalls=45)
         return lang, api.run_cpp_program(seed + 12000, i, "c12cpp", profile=prof, ncalls=45, stds=("c++17",))
-    for lang, r in pmap(one, [(l, i) for l in ("c", "cpp") for i in range(n)]):
+    res = pmap(one, [(l, i) for l in ("c", "cpp") for i in range(n)])
+    # the same write-heavy histories from a Rust driver calling the macro's extern "C" functions, interpreted by Miri: the macro's
+    # flush calls, diplomat_simple_write's NUL termination and the Rust-owned buffer's grow() run under Miri's bounds/provenance checks
+    res += [("miri", r) for r in api.run_miri_programs(seed + 12500, (120 if thorough else 16), "c12", profile=prof, ncalls=(40 if thorough else 25))]
+    stats["programs_miri"] = 0
+    for lang, r in res:
         if r["status"] == "skip":
             chk.inconc("e2e %s p%d skipped at %s" % (lang, r["idx"], r["stage"]))
             continue
